@@ -127,11 +127,11 @@ _MACHINE = ("rapid state machine over a network of real beacon handlers: scheme 
             "actions: tick, sub-period advance, burst of 2-6 periods, advance of a subset (skew/stall), realign, partition/heal, queue mode with generated delivery order and drops, duplicate mode, stop/restart (same or fresh store), "
             "forged partial injection (12 kinds incl. valid-for-clock+k), scripted lying sync peer (13 kinds), sync-stream tap. ")
 RULES = {
-    "C13": "three real daemons (in-package, loopback gRPC, bolt stores, file key stores, verif hooks on) run a script: first DKG through the control API, 4 rounds, (2/3 of the cases and always shard 0) a resharing and the rounds across its transition. "
+    "C13": "three real daemons (in-package, loopback gRPC, bolt stores, file key stores, verif hooks on) run a script: first DKG through the control API, 4 rounds, (2/3 of the cases, always in shards 0-1 and whenever the completion record is the stalled operation) a resharing and the rounds across its transition. "
            "Drawn per case: scheme, threshold, which node is the node under test (leader or follower), and a schedule perturbation: one kind of persistence operation of that node (DKG completion record, DKG record, key file, chain Put, or none) starts 60/250 ms late so that whatever runs concurrently gets ahead (first case of shard k uses kind k). Every persistence point of that node (key.Save begin/created/end for group and share file, DKG store save/SaveFinished begin/end, chain Put begin/end; all persistence "
            "in the process serialised between begin and end by the hook) yields a crash image = copy of its folder; for every in-place file write two torn images (prefix of the new content) are synthesised. Every image is restarted: (a) a fresh daemon loads it without error or panic, "
            "(b) dkg.db decodes and its finished record is one whole epoch (Complete, group and share of one key) and a current record that says Complete is that same epoch, (c) group file and share file decode and are exactly the group and share of the epoch dkg.db records as completed (none if it records none), "
-           "(d) the chain store scans gap-free from 0, every beacon verifies under the group key, and holds every round the node had served before the snapshot, (e) after three periods of clock time no fatal event. "
+           "(d) the chain store scans gap-free from 0, every beacon verifies under the group key, and holds every round the node had served (handed to a client following its public randomness stream, or visible as its head) by the time the snapshot was complete, (e) after three periods of clock time no fatal event. "
            "All images of a case are examined (fault enumeration over the persistence points of the script); non-trivial: every image; distinct by case + image index + crash window.",
     "C15": "(dkg) real dkg.Process instances run a key generation (n in 2..4, 5 schemes) and optionally a resharing on the in-memory bus; every gossip and bundle message (marshalled protobuf), every DKG status answer and every log line at debug level is scanned, and so are the error texts answered to remote callers: for the protocol's own messages, for two forged twins of every gossip packet (signature bit-flipped, sender swapped) sent by the harness just before the genuine one, and for refused operator commands. (faults) three real daemons run a DKG / resharing while on one of them the share-file or group-file path is occupied by a directory, so that storing the DKG output fails: all log lines, command errors and DKG status answers are scanned for the long-term scalars and every share recorded in a dkg.db. "
            "(daemon) a real two-chain daemon (bolt or memdb, process umask 0 or 022) produces beacons; the marshalled answers of PublicRand, ChainInfo, GetIdentity, PublicKey, GroupFile, Status, DKGStatus, ListBeaconIDs, the first SyncChain item, the database backup, "
